@@ -28,6 +28,43 @@ class Crate:
     def find(self, pred):
         return [f for f in self.fn_list if pred(f)]
 
+    def mods(self, path, ai, _stack=()):
+        """frame condition of a local function for its `&mut` argument number ai (0-based): the set of first-level fields of the
+        referent that the call may modify, or None when unknown (whole-value writes, escapes, recursion, non-local callees)"""
+        key = (path, ai)
+        cache = self.__dict__.setdefault('_mods', {})
+        if key in cache:
+            return cache[key]
+        g = self.fns.get(path)
+        if g is None or key in _stack or ai >= g.arg_count or g.kind not in ('Fn', 'AssocFn'):
+            return None
+        p = ai + 1
+        # the parameter must itself be a `&mut T` (a generic `W` instantiated with a reference is opaque here), and a returned
+        # borrow (any lifetime in the return type) may be used by the caller to write later
+        if not is_mut_ref(g.local_ty(p)) or "'" in g.local_ty(0) or '&' in g.local_ty(0):
+            cache[key] = None
+            return None
+        out = set()
+        res = out
+        for (bid, idx, tgt, kind, extra) in g.raw_defs():
+            if not tgt or tgt[0] != p:
+                continue
+            if len(tgt) >= 2:
+                out.add(tgt[1])
+                continue
+            if kind == 'mutborrow':
+                t = g.blocks[bid]['term']
+                sub = self.mods(g.callee(t), extra['arg'], _stack + (key,)) if g.callee(t) in self.fns else None
+                if sub is None:
+                    res = None
+                    break
+                out |= set(sub)
+            else:
+                res = None
+                break
+        cache[key] = frozenset(out) if res is not None else None
+        return cache[key]
+
     def fn(self, path):
         return self.fns.get(path)
 
@@ -534,32 +571,21 @@ class Fn:
         return self._loc_raw(place, self.refmap())
 
     # ----- definitions ------------------------------------------------------
-    def defs(self):
-        """all definition sites. kinds: entry, assign, call, mutborrow, setdiscr"""
-        if self._defs is not None:
-            return self._defs
-        defs = []
+    def raw_defs(self):
+        """[(bid, idx, target loc, kind, extra)] before interprocedural refinement. kinds: assign, setdiscr, mutborrow, call"""
+        if getattr(self, '_rawdefs', None) is not None:
+            return self._rawdefs
+        out = []
         rm = self.refmap()
-
-        def add(bid, idx, target, kind, strong=True, extra=None):
-            d = Def(len(defs), bid, idx, target, kind, strong, extra)
-            defs.append(d)
-            return d
-        for l in range(1, self.arg_count + 1):
-            add('entry', l, (l,), 'entry')
-        # find consumers of &mut temporaries: local -> list of (bid, argidx)
         for bid, b in sorted(self.blocks.items()):
             for i, st in enumerate(b['stmts']):
                 if st['k'] == 'assign':
                     tgt = self.loc(st['place'])
-                    strong = '[]' not in tgt and '[..]' not in tgt and '?' not in tgt
-                    rv = st['rv']
                     if not st['place']['proj'] and st['place']['local'] in rm:
                         continue  # pure alias temp
-                    add(bid, i, tgt, 'assign', strong)
+                    out.append((bid, i, tgt, 'assign', None))
                 elif st['k'] == 'set_discr':
-                    tgt = self.loc(st['place'])
-                    add(bid, i, tgt, 'setdiscr', strong=False)
+                    out.append((bid, i, self.loc(st['place']), 'setdiscr', None))
             t = b['term']
             if t and t['k'] == 'call':
                 # every `&mut` argument may modify its referent: a definition of the
@@ -571,10 +597,53 @@ class Fn:
                     l = p['local']
                     if not is_mut_ref(self.local_ty(l)):
                         continue
-                    btgt = rm.get(l, (l,))
-                    strong = '[]' not in btgt and '[..]' not in btgt and '?' not in btgt
-                    add(bid, 'T', btgt, 'mutborrow', strong, extra={'arg': ai, 'tmp': l})
-                tgt = self.loc(t['dest'])
+                    out.append((bid, 'T', rm.get(l, (l,)), 'mutborrow', {'arg': ai, 'tmp': l}))
+                out.append((bid, 'T', self.loc(t['dest']), 'call', None))
+        self._rawdefs = out
+        return out
+
+    def defs(self):
+        """all definition sites. kinds: entry, assign, call, mutborrow, setdiscr.
+        A `&mut` argument handed to a LOCAL function whose frame condition is known (Crate.mods) defines only the fields that
+        function may modify; otherwise the whole referent."""
+        if self._defs is not None:
+            return self._defs
+        defs = []
+
+        def add(bid, idx, target, kind, strong=True, extra=None):
+            d = Def(len(defs), bid, idx, target, kind, strong, extra)
+            defs.append(d)
+            return d
+
+        def is_strong(tgt):
+            return '[]' not in tgt and '[..]' not in tgt and '?' not in tgt
+        for l in range(1, self.arg_count + 1):
+            add('entry', l, (l,), 'entry')
+        for (bid, idx, tgt, kind, extra) in self.raw_defs():
+            if kind == 'assign':
+                add(bid, idx, tgt, 'assign', is_strong(tgt))
+            elif kind == 'setdiscr':
+                add(bid, idx, tgt, 'setdiscr', strong=False)
+            elif kind == 'mutborrow':
+                fields = None
+                if self.crate is not None:
+                    c = self.callee(self.blocks[bid]['term'])
+                    if c in self.crate.fns and c != self.path:
+                        fields = self.crate.mods(c, extra['arg'])
+                        if fields is not None:
+                            # worth refining only when some field of the referent provably stays untouched
+                            m = re.match(r"^&('\S+ )?mut ([\w:]+)", self.local_ty(extra['tmp']))
+                            adt = self.crate.adts.get(m.group(2)) if m else None
+                            allf = {fd['name'] for v in adt['variants'] for fd in v['fields']} if adt and len(adt['variants']) == 1 else None
+                            if allf is None or not (set(fields) < allf):
+                                fields = None
+                if fields is None:
+                    add(bid, 'T', tgt, 'mutborrow', is_strong(tgt), extra=extra)
+                else:
+                    for fld in sorted(fields, key=str):
+                        # the callee MAY write the field: a weak update would lose the `after` marker, keep it strong like the whole-value form
+                        add(bid, 'T', tuple(tgt) + (fld,), 'mutborrow', is_strong(tgt), extra=extra)
+            elif kind == 'call':
                 add(bid, 'T', tgt, 'call', '[]' not in tgt)
         self._defs = defs
         return defs
